@@ -927,6 +927,36 @@ def generate(repo=None):
             return emit(lean_name, '(k lo hi : Int)', pe, r, '`utils.%s(x, val_min, val_max)` on one (integer) element' % fname)
         attempt(lean_name, fclip)
 
+    # ------------------------------------------------------------------------------------------ _round: which NumPy function each rule calls
+    if meth:
+        def fround():
+            node = meth.get('_round')
+            if node is None:
+                raise Untranslatable('Fxp._round not found')
+            a = [p.arg for p in node.args.args]
+            table = []
+
+            def walk(stmts):
+                for st in stmts:
+                    if isinstance(st, ast.If):
+                        t = st.test
+                        if isinstance(t, ast.Compare) and len(t.ops) == 1 and isinstance(t.ops[0], ast.Eq) and isinstance(t.left, ast.Name) \
+                                and t.left.id == a[2] and isinstance(t.comparators[0], ast.Constant) and isinstance(t.comparators[0].value, str):
+                            body = [b for b in st.body if not (isinstance(b, ast.Expr) and isinstance(b.value, ast.Constant))]
+                            if len(body) == 1 and isinstance(body[0], ast.Assign) and isinstance(body[0].value, ast.Call) \
+                                    and ast.unparse(body[0].value.func).startswith('np.') and len(body[0].value.args) == 1 \
+                                    and isinstance(body[0].value.args[0], ast.Name) and body[0].value.args[0].id == a[1] and not body[0].value.keywords:
+                                table.append((t.comparators[0].value, ast.unparse(body[0].value.func)[3:]))
+                            else:
+                                raise Untranslatable("the branch of rounding '%s' is not `rval = np.<function>(val)`" % t.comparators[0].value)
+                        walk(st.orelse)
+            walk(node.body)
+            if not table:
+                raise Untranslatable('no `method == <name>` branches found in _round')
+            return ('/-- `Fxp._round`: the NumPy function applied to a float array for each rounding rule (integer and object arrays are returned as they are) -/\n'
+                    'def roundTable : List (String × String) :=\n  [%s]' % ', '.join('("%s", "%s")' % p_ for p_ in table))
+        attempt('roundTable', fround)
+
     # ------------------------------------------------------------------------------------------ _overflow_action
     if meth and ufuncs:
         def fflags():
